@@ -190,7 +190,7 @@ def _get_conjugate_parameter(target):
 def _check_conjugate_parameter_is_scalar_identity(f):
     """Tests whether a function (scalar to scalar) is the identity (lambda x: x)."""
     test_values = [1.0, 10.0, 100.0]
-    return all(np.allclose(f(x), x) for x in test_values)
+    return all(np.allclose(f(x), x, rtol=1e-9, atol=0.0) for x in test_values) # as strict as the reciprocal test below
 
 def _check_conjugate_parameter_is_scalar_reciprocal(f):
     """Tests whether a function (scalar to scalar) is the reciprocal (lambda x : 1.0/x)."""
